@@ -670,9 +670,12 @@ def type_programs(tier):
                             Ty("RE", [Sh("V", "named", [O("r#struct")])], is_enum=True)])
     raw_cfg = cfg
     add("raw_type_unit", [st("r#type", "unit")], configs=raw_cfg)
-    add("raw_type_tuple", [st("r#struct", "tuple", [O()])], configs=raw_cfg)
+    add("raw_type_tuple", [st("r#struct", "tuple", [O()]), st("r#while", "tuple"), st("r#loop", "tuple", [O(attr="skip"), O()]),
+                           st("r#for", "tuple", [O(attr=("fmt", '"<{:?}>"', ["_0"])), O(attr="ignore")])], configs=raw_cfg)
     add("raw_type_named", [st("r#match", "named", [O("r#in")])], configs=raw_cfg)
-    add("raw_variants", [Ty("E", [Sh("r#fn", "unit"), Sh("r#if", "tuple", [O()]), Sh("r#loop", "named", [O("r#in")])], is_enum=True)],
+    add("raw_variants", [Ty("E", [Sh("r#fn", "unit"), Sh("r#if", "tuple", [O()]), Sh("r#loop", "named", [O("r#in")])], is_enum=True),
+                         Ty("F", [Sh("r#while", "tuple"), Sh("r#do", "tuple", [O(), O(attr="skip")]),
+                                  Sh("r#try", "tuple", [O(attr=("fmt", '"[{:?}]"', ["_0"]))]), Sh("r#box", "named", [O("a", "skip")])], is_enum=True)],
         configs=raw_cfg)
     # ---- skipped fields: all subsets
     add("k_tuple2", skip_subsets("tuple", 2), configs=cfg_po if tier == "thorough" else cfg)
